@@ -29,6 +29,7 @@ RULE += (
          'Re-entered template variant; page sizes 20..250. ')
 RULE += ('Round 8: the bound uses the requested size whenever one is given. ')
 RULE += ('Round 9: lazily produced (key, value) pairs. ')
+RULE += ('Round 10: batch links written as nested tags over the same name. ')
 ASSUMPTIONS = [
     'bound = last displayed element + step size + orphan; when size < 1 the '
     'reported sequence-step-size is used',
